@@ -84,6 +84,18 @@ class HB:
     def __hash__(self):
         return 0
 
+    def __lt__(self, o):
+        return list(self.v) < list(o)
+
+    def __le__(self, o):
+        return list(self.v) <= list(o)
+
+    def __gt__(self, o):
+        return list(self.v) > list(o)
+
+    def __ge__(self, o):
+        return list(self.v) >= list(o)
+
     def __bytes__(self):
         return bytes(list(self.v))
 
@@ -97,6 +109,43 @@ class HB:
         return "<HB>"
 
     __str__ = __repr__
+
+
+class _BytesModel:
+    """Stands for the builtin `bytes` inside ledger.hsm2dongle (symbolic mode only): byte strings built by the
+    APDU layer become HB, so that `.hex()` for log lines and slicing never realise symbolic content."""
+    def __call__(self, *a, **k):
+        if len(a) == 1 and not k:
+            x = a[0]
+            if isinstance(x, HB):
+                return x
+            if isinstance(x, (list, tuple)):
+                return HB(list(x))
+            if isinstance(x, (bytes, bytearray)):
+                return HB(list(x))
+        return HB(list(bytes(*a, **k)))
+
+    @staticmethod
+    def fromhex(s):
+        if isinstance(s, LazyHex):
+            return HB(list(s.v))
+        return HB(list(_native_fromhex(s)))
+
+
+def _native_fromhex(s):
+    try:
+        from crosshair.core import realize
+        from crosshair.tracers import NoTracing, is_tracing
+    except Exception:
+        return bytes.fromhex(s)
+    if not is_tracing():
+        return bytes.fromhex(s)
+    s = realize(s)
+    with NoTracing():
+        return bytes.fromhex(s)
+
+
+BYTES_MODEL = _BytesModel()
 
 
 def mkbytes(v):
@@ -187,19 +236,29 @@ _NATIVE = [
 ]
 
 
-def install_native_helpers():
+_ORIG = {}
+_NATIVE_VALIDATORS = [("comm.protocol", ["is_nonempty_hex_string", "is_hex_string_of_length", "has_nonempty_hex_field",
+                                         "has_hex_field_of_length"])]
+
+
+def install_native_helpers(skip=(), validators=False):
     """Obligations whose blocks / transactions are concrete catalogue entries run the repository's
     block / transaction helpers natively (real code, concrete input, no tracing): the solver variables
-    of those obligations do not flow into them, and tracing them costs seconds per path."""
+    of those obligations do not flow into them, and tracing them costs seconds per path.
+    `skip`: names that must stay traced because a symbolic value does flow into them."""
     if REPLAY:
         return
     import importlib
-    for modname, names in _NATIVE:
+    for modname, names in _NATIVE + _NATIVE_VALIDATORS:
         mod = importlib.import_module(modname)
         for n in names:
-            f = getattr(mod, n)
-            if not getattr(f, "_verif_wrapped", False):
-                w = c_boundary(f)
+            key = (modname, n)
+            if key not in _ORIG:
+                _ORIG[key] = getattr(mod, n)
+            if n in skip or ((modname, names) in _NATIVE_VALIDATORS and not validators):
+                setattr(mod, n, _ORIG[key])
+            else:
+                w = c_boundary(_ORIG[key])
                 w._verif_wrapped = True
                 setattr(mod, n, w)
 
@@ -329,10 +388,14 @@ class World:
     def apdus(self):
         return [e[1] for e in self.log if e[0] == "apdu"]
 
-    def install(self, native=True):
+    def install(self, native=True, bytes_model=False, traced=(), native_validators=False):
         import ledger.hsm2dongle as h
         if native:
-            install_native_helpers()
+            install_native_helpers(skip=traced, validators=native_validators)
+        if bytes_model and not REPLAY:
+            h.bytes = BYTES_MODEL
+        elif "bytes" in h.__dict__:
+            del h.bytes
         import ledger.hsm2dongle_tcp as ht
         h.getDongle = self.get_dongle
         ht.getDongle = self.get_dongle
